@@ -28,6 +28,7 @@ import (
 	"verifmc/internal/ops"
 	"verifmc/internal/vnode"
 	"verifmc/internal/xs"
+	"verifmc/props/c06"
 )
 
 type listener struct{ f func() }
@@ -551,6 +552,16 @@ func init() {
 				}
 				must(json.Unmarshal(c.Replay, &rep))
 				only, want = rep.Write, rep.Scenario
+				var sc c06.StoreCase
+				if err := json.Unmarshal(c.Replay, &sc); err == nil && sc.Mode == "store" {
+					c06.StoreValueCases(c, r, "C08", &sc)
+					return
+				}
+			}
+			if want == "" {
+				// "a rollback returns the store to the state before the commit", for the value classes node traffic never writes
+				// (keys present with an empty value): C06's store-level cases on the real leveldb manager
+				c06.StoreValueCases(c, r, "C08", nil)
 			}
 			if want == "" || want == "genesis" {
 				runGenesis(c, r, only)
